@@ -209,8 +209,9 @@ CHECKS["C15"] = dict(
          "generated cos/sin tables (Fourier, refined AAFT true spectrum) also after repeated calls, the original data untouched, "
          "TwinsDef (exactly the pairs further apart than min_dist with identical recurrence rows and more than one neighbour) and "
          "TwinWalk (every step goes to the own successor or the successor of a twin, or restarts at the end).",
-    note="Spectra compared to 2 % (fixed-point squares); the twin walk is "
-         "checked as a relation on seeded runs, not replayed choice by choice.",
+    note="Spectra compared to 2 % (fixed-point squares); the twin walk of Surrogates is replayed choice by choice "
+         "(TwinWalkSM, scripted random source) on patterns of length 4 (quick) / 5 (thorough) with at most 3 free "
+         "draws; RecurrencePlot.twin_surrogates is checked as a relation on seeded runs only.",
     ref="6/C15")
 
 CHECKS["C12"] = dict(
@@ -314,7 +315,7 @@ EXT = {
 }
 
 
-EXT4 = {'C03': " Fourth round: Newman's random-walk betweenness against its electrical definition in exact integer arithmetic (number of spanning trees and Kirchhoff determinants; no matrix inverse, no grounded node) on every connected undirected graph of up to 6 nodes.", 'C01': ' Fourth round: component-wise tokens for joint / inter-system settings; there-and-back histories (a, b, a) with an effective middle step in the quick tier; the mode kept_threshold (data recomputed while a density-derived threshold is kept: undetermined, nothing observed) instead of disabled transitions; queries with arguments discovered from parameter names; geographic argument patterns and grid reports; CoupledClimateNetwork with link-attribute mutators and wrapper queries; the public embedding setter of Surrogates as a mutator.', 'C02': ' Fourth round: the single-network n.s.i. measures observed on the InteractingNetworks object AFTER its group measures; every failing site is named (a listed finding no longer hides another).', 'C04': " Fourth round: geographic argument patterns and the grid's own reports (coordinates, Euclidean and angular distances) under renumbering; a second pass over the spatial / resistive views.", 'C05': ' Fourth round: a USED network (every link-weighted measure asked once), its copy and its file.', 'C08': ' Fourth round: the histograms are unchanged by resample_diagline_dist / resample_vertline_dist (which return the requested number of lines).', 'C09': ' Fourth round: there-and-back histories through the data-recomputing setters (mode kept_threshold); DensityMiss and QuantileDef (the selected threshold is a value of the current similarity matrix) for the data-driven networks.', 'C10': " Fourth round: objects with a history (a larger maximal lag asked before, the object's own arrays symmetrised, the question repeated: Repeatable).", 'C11': ' Fourth round: link lengths of the coupled network given in two steps (other lengths asked once first).', 'C13': ' Fourth round: decimal time axis (1950 + (t+1)/24, not representable in single precision); the exception of a window change is an observation.', 'C15': ' Fourth round: the public embedding setter between two equal twin_surrogates calls; OriginalStates over the embedded states.', 'C16': ' Fourth round: significance levels (shuffle / analytic) asked before the analyses on half of the objects; column-major event matrices.', 'C17': ' Fourth round: chains of three degree-preserving randomisations (geographical models, global rewiring) on one spatial network.', 'C19': " Fourth round: the chunk-partition invariant for EVERY N and max_parts discharged by Apalache (Apa_Chunks, with a refuted negative control); hub-in-the-middle components of >= 21 nodes (sweep of hub positions); the docstring's spelling of the stopping mode as an argument variant."}
+EXT4 = {'C03': " Fourth round: Newman's random-walk betweenness against its electrical definition in exact integer arithmetic (number of spanning trees and Kirchhoff determinants; no matrix inverse, no grounded node) on every connected undirected graph of up to 6 nodes.", 'C01': ' Fourth round: component-wise tokens for joint / inter-system settings; there-and-back histories (a, b, a) with an effective middle step in the quick tier; the mode kept_threshold (data recomputed while a density-derived threshold is kept: undetermined, nothing observed) instead of disabled transitions; queries with arguments discovered from parameter names; geographic argument patterns and grid reports; CoupledClimateNetwork with link-attribute mutators and wrapper queries; the public embedding setter of Surrogates as a mutator.', 'C02': ' Fourth round: the single-network n.s.i. measures observed on the InteractingNetworks object AFTER its group measures; every failing site is named (a listed finding no longer hides another).', 'C04': " Fourth round: geographic argument patterns and the grid's own reports (coordinates, Euclidean and angular distances) under renumbering; a second pass over the spatial / resistive views.", 'C05': ' Fourth round: a USED network (every link-weighted measure asked once), its copy and its file.', 'C08': ' Fourth round: the histograms are unchanged by resample_diagline_dist / resample_vertline_dist (which return the requested number of lines).', 'C09': ' Fourth round: there-and-back histories through the data-recomputing setters (mode kept_threshold); DensityMiss and QuantileDef (the selected threshold is a value of the current similarity matrix) for the data-driven networks.', 'C10': " Fourth round: objects with a history (a larger maximal lag asked before, the object's own arrays symmetrised, the question repeated: Repeatable).", 'C11': ' Fourth round: link lengths of the coupled network given in two steps (other lengths asked once first).', 'C13': ' Fourth round: decimal time axis (1950 + (t+1)/24, not representable in single precision); the exception of a window change is an observation.', 'C15': ' Fourth round: TwinWalkSM - the twin walk as a state machine whose draws are action parameters; every behaviour with at most three free draws is replayed on Surrogates.twin_surrogates with Python\'s random source scripted to these draws, and TLC requires the library\'s twins, exactly the scripted draws consumed and exactly the walk the draws determine (the LAST option is the own successor); the public embedding setter between two equal twin_surrogates calls; OriginalStates over the embedded states.', 'C16': ' Fourth round: significance levels (shuffle / analytic) asked before the analyses on half of the objects; column-major event matrices.', 'C17': ' Fourth round: chains of three degree-preserving randomisations (geographical models, global rewiring) on one spatial network.', 'C19': " Fourth round: the chunk-partition invariant for EVERY N and max_parts discharged by Apalache (Apa_Chunks, with a refuted negative control); hub-in-the-middle components of >= 21 nodes (sweep of hub positions); the docstring's spelling of the stopping mode as an argument variant."}
 
 
 def main():
